@@ -77,8 +77,9 @@ func (m *Manager) connect(recursed bool) (err error) {
 				activeMu.Unlock()
 				return
 			}
+			epoch := m.connEpoch.Load()
 			activeMu.Unlock()
-			m.onEIOPacket(packets...)
+			m.onEIOPacket(epoch, packets...)
 		},
 		OnError: func(err error) {
 			activeMu.Lock()
